@@ -5,6 +5,7 @@ It is an oracle component: every frame it receives is parsed strictly, and
 everything it does is appended to `history` for the monitors.
 """
 import struct
+import zlib
 
 from . import refproto as R
 from .simnet import FrameBuffer
@@ -402,6 +403,7 @@ class Cluster(object):
                     ev["replied"] = "sent"
                     ev["reply_t"] = self.clock.seconds()
                     ev["reply_len"] = len(data)
+                    ev["reply_crc"] = zlib.crc32(data) & 0xffffffff
                     ghost = self.ghost_pred is not None and self.ghost_pred(ev)
                     ev["ghost"] = ghost
                     bconn.conn.server_send(R.frame(data), label="net.s2c." + ev["api"], ghost=ghost)
